@@ -863,6 +863,39 @@ pub fn twin_resources() -> Result<(), Fail> {
   Ok(())
 }
 
+// ---- C15: a task and a resource never share a node, even when one type plays both roles with equal values ------------------------
+#[derive(Clone, PartialEq, Eq, Hash, Debug)] pub struct Both(pub u8);
+impl MapKey for Both { type Value = u8; }
+impl Task for Both {
+  type Output = Option<u8>;
+  fn execute<C: Context>(&self, c: &mut C) -> Option<u8> { c.read(&Both(self.0), MapEqualsChecker).unwrap().copied() }   // the task reads the resource with ITS OWN key
+}
+#[derive(Clone, PartialEq, Eq, Hash, Debug)] pub struct UsesBoth(pub u8);
+impl Task for UsesBoth {
+  type Output = (Option<u8>, Option<u8>);
+  fn execute<C: Context>(&self, c: &mut C) -> Self::Output { let a = c.require(&Both(self.0), EqualsChecker); let b = c.read(&Both(self.0 + 1), MapEqualsChecker).unwrap().copied(); let t = c.require(&Both(self.0 + 1), EqualsChecker); (a.or(t), b) }
+}
+pub fn task_and_resource_with_equal_keys() -> Result<(), Fail> {
+  let run = || -> Result<(), Fail> {
+    let mut pie: Pie<()> = Pie::default();
+    pie.resource_state_mut::<Both>().get_global_map_mut().insert(Both(1), 10);
+    let a = pie.new_session().require(&Both(1));
+    if a != Some(10) { fail!("C15", "C15.bounded.a_task_and_a_resource_never_share_a_node", "task Both(1) reading resource Both(1) = 10 returned {:?}", a); }
+    pie.resource_state_mut::<Both>().get_global_map_mut().insert(Both(1), 11);
+    let b = pie.new_session().require(&Both(1));
+    if b != Some(11) { fail!("C15", "C15.bounded.a_task_and_a_resource_never_share_a_node", "after resource Both(1) changed to 11, task Both(1) (which read it) returned {:?}: its read dependency was lost", b); }
+    // resource node first, then the equal key as a task; and a requirer that has a require AND a read edge to equal keys
+    pie.resource_state_mut::<Both>().get_global_map_mut().insert(Both(2), 20);
+    let c = pie.new_session().require(&UsesBoth(1));
+    if c != (Some(11), Some(20)) { fail!("C15", "C15.bounded.a_task_and_a_resource_never_share_a_node", "UsesBoth(1) returned {:?}, expected (Some(11), Some(20))", c); }
+    pie.resource_state_mut::<Both>().get_global_map_mut().insert(Both(2), 21);
+    let d = pie.new_session().require(&UsesBoth(1));
+    if d != (Some(11), Some(21)) { fail!("C15", "C15.bounded.a_task_and_a_resource_never_share_a_node", "after resource Both(2) changed to 21, UsesBoth(1) returned {:?}", d); }
+    Ok(())
+  };
+  match catch_unwind(AssertUnwindSafe(run)) { Ok(r) => r, Err(e) => fail!("C15", "C15.bounded.a_task_and_a_resource_never_share_a_node", "a type used as task and as resource key with equal values: the build aborted with {}", panic_msg(e)) }
+}
+
 // ---- C09: a checker may decide on the current state alone and carry no stamp at all (zero-sized stamp) ----------------------------
 #[derive(Copy, Clone, PartialEq, Eq, Hash, Debug)] pub struct PresentNow;
 impl ResourceChecker<Res> for PresentNow {
